@@ -134,7 +134,7 @@ def within(x, r):
     return 16 * abs(r - x) <= x
 
 
-def judge_property(strategy, originals, obs, exact):
+def judge_property(strategy, originals, obs, exact, plain_x=None):
     """originals: [(Fraction value, occurrences)], obs: harness observations of the closed histogram.
     Returns a violation text or None.  Only called for originals inside the property's domain."""
     rep = reported_of(obs)
@@ -147,6 +147,27 @@ def judge_property(strategy, originals, obs, exact):
     if total_in != total_out:
         return f"count not conserved: {total_in} observations recorded, closed distribution has {total_out}"
     orig = sorted(originals)
+    if strategy == "sam" and plain_x is not None:
+        # plain single observations: the closed distribution lists every distinct recorded f64 exactly once, ascending,
+        # with its exact count - judged on the bit patterns, however close the values are
+        dist = []
+        for x in sorted(plain_x):
+            if dist and dist[-1][0] == x:
+                dist[-1][1] += 1
+            else:
+                dist.append([x, 1])
+        if len(rep) != len(dist):
+            near = [(dist[i - 1][0], dist[i][0]) for i in range(1, len(dist)) if dist[i][0] - dist[i - 1][0] <= 1e-9 * dist[i][0]]
+            return (f"sort-and-merge: {len(dist)} distinct values recorded but {len(rep)} observations reported "
+                    f"(only equal values may be merged{'; recorded among others ' + repr(near[0]) if near else ''})")
+        for i, ((x, n), (r, m)) in enumerate(zip(dist, rep)):
+            if n != m:
+                return f"sort-and-merge: value {x!r} recorded {n} times, reported {m} times"
+            if (n == 1 and r != F(x)) or abs(r * n - F(x) * n) > F(x) * n / (1 << 52):
+                return f"sort-and-merge: recorded {x!r} ({n} times) reported as {float(r)!r}"
+            if i > 0 and not rep[i - 1][0] < r:
+                return f"sort-and-merge: reported values not strictly ascending at position {i}"
+        return None
     if strategy == "sam":
         dist = []
         for v, n in orig:
@@ -241,30 +262,32 @@ def fr_s(fr):
     return [str(fr.numerator), str(fr.denominator)]
 
 
-def add_step(v, origs, xrecs):
+def add_step(v, origs, xrecs, plain=False):
+    """plain: one single observation whose recorded f64 is the input itself (f64 / f32 / integer): no total = v * n,
+    no unit conversion - sort-and-merge is then judged exactly on the recorded bit patterns"""
     return {"op": "add", "v": v, "orig": [fr_s(o) + [n] for o, n in origs],
-            "xrec": None if xrecs is None else [[f2b(x), n] for x, n in xrecs]}
+            "xrec": None if xrecs is None else [[f2b(x), n] for x, n in xrecs], "plain": plain}
 
 
 def src_f64(X, occ=1):
     x = exact_f64(X)
     if x is None:
         return None
-    return add_step(f2b(x), [(X, 1)], [(x, 1)])
+    return add_step(f2b(x), [(X, 1)], [(x, 1)], plain=True)
 
 
 def src_f32(X, occ=1):
     x = exact_f32(X)
     if x is None:
         return None
-    return add_step(f32bits(x), [(X, 1)], [(x, 1)])
+    return add_step(f32bits(x), [(X, 1)], [(x, 1)], plain=True)
 
 
 def src_u64(X, occ=1, bits=64):
     v = int(X)
     if v >= (1 << bits) or v >= (1 << 53):
         return None
-    return add_step(v, [(F(v), 1)], [(float(v), 1)])
+    return add_step(v, [(F(v), 1)], [(float(v), 1)], plain=True)
 
 
 def src_u32(X, occ=1):
@@ -313,14 +336,14 @@ def src_obs_u(X, occ=1):
     v = int(X)
     if v >= (1 << 53):
         return None
-    return add_step(["u", v], [(F(v), 1)], [(float(v), 1)])
+    return add_step(["u", v], [(F(v), 1)], [(float(v), 1)], plain=True)
 
 
 def src_obs_f(X, occ=1):
     x = exact_f64(X)
     if x is None:
         return None
-    return add_step(["f", f2b(x)], [(X, 1)], [(x, 1)])
+    return add_step(["f", f2b(x)], [(X, 1)], [(x, 1)], plain=True)
 
 
 SOURCES = {
@@ -390,6 +413,48 @@ def make_multi_case(table, strategy, rng):
         origs += [(F(int(o[0]), int(o[1])), o[2]) for o in st["orig"]]
         xrecs += [(b2f(x), n) for x, n in st["xrec"]]
     return {"strategy": strategy, "source": "multi", "kind": "multi", "steps": [add_step(vs, origs, xrecs)], "what": "multi"}
+
+
+def next_up(x, k=1):
+    return b2f(f2b(x) + k)
+
+
+def near_float_sets(rng, n_random):
+    """sets of distinct f64 that are adjacent or nearly adjacent, below and above 1.0"""
+    sets = [
+        [0.3, 0.3, 0.1 + 0.2],
+        [0.1 + 0.2, 0.3, 0.3, 0.1 + 0.2, next_up(0.1 + 0.2)],
+        [1e-17, 2e-17, 3e-17, 1e-17],
+        [0.0, 5e-324, 1e-323, 5e-324, 2.2250738585072014e-308, next_up(2.2250738585072014e-308), b2f(f2b(2.2250738585072014e-308) - 1)],
+        [1e-300, next_up(1e-300), 1e-200, next_up(1e-200, 2)],
+        [0.5, b2f(f2b(0.5) - 1), next_up(0.5), 0.5],
+        [b2f(f2b(1.0) - 1), 1.0, next_up(1.0), 1.0, b2f(f2b(1.0) - 2)],
+        [1.5, next_up(1.5), 1.5, 1e6, next_up(1e6), 123456.789, next_up(123456.789, 2)],
+        [0.03125, b2f(f2b(0.03125) - 1), next_up(0.03125)],
+        [2.0 ** 40, next_up(2.0 ** 40), 2.0 ** 42 + 0.5, 2.0 ** 42 + 1.0],
+    ]
+    for _ in range(n_random):
+        e = rng.choice([-1022, -300, -60, -53, -30, -10, -4, -1, 0, 1, 10, 30, 41])
+        x = rng.uniform(1.0, 2.0) * 2.0 ** e
+        vs = []
+        for step in (0, 1, 2, rng.randrange(3, 9), rng.randrange(9, 4000)):
+            vs += [next_up(x, step)] * rng.choice([1, 1, 2])
+        rng.shuffle(vs)
+        sets.append(vs)
+    return sets
+
+
+def near_cases(rng, tier):
+    cases, pair = [], 1 << 52
+    for vs in near_float_sets(rng, 60 if tier == "quick" else 2000):
+        for kind, mk in (("f64", src_f64), ("obs_f", src_obs_f)):
+            pair += 1
+            for strategy in ("exp", "atomic", "sam"):
+                steps = [mk(F(x)) for x in vs]
+                c = {"strategy": strategy, "source": SOURCES[kind][0], "kind": kind, "steps": steps, "pair": pair,
+                     "what": f"adjacent floats {vs[:3]!r}.."}
+                cases.append(c)
+    return cases
 
 
 REAGG_LARGE = [1000, 4099, 65537, (1 << 20) + 1, (1 << 33) + 1]
@@ -482,6 +547,7 @@ def judge_case(chk, table, case, res):
     strategy = case["strategy"]
     drains = res["drains"]
     cur_orig, cur_x = [], []
+    cur_plain = True
     kept = None
     di = 0
     drift = None
@@ -492,7 +558,9 @@ def judge_case(chk, table, case, res):
             cur_orig += [(F(int(a), int(b)), n) for a, b, n in st["orig"]]
             if cur_x is not None:
                 cur_x = None if st["xrec"] is None else cur_x + [(b2f(x), n) for x, n in st["xrec"]]
+            cur_plain = cur_plain and bool(st.get("plain")) and st["xrec"] is not None
         elif st["op"] == "merge":
+            cur_plain = False
             rep = reported_of(kept)
             cur_orig += [(v, n) for v, n in rep]
             if cur_x is not None:
@@ -505,10 +573,13 @@ def judge_case(chk, table, case, res):
             bump(chk, "observations_recorded", sum(n for _, n in cur_orig))
             if not in_domain:
                 bump(chk, "drains_outside_domain_2^43")
-            if strategy == "sam" and sam_ambiguous(cur_orig):
+            plain_x = [x for x, n in cur_x] if (cur_plain and cur_x is not None) else None
+            if strategy == "sam" and plain_x is None and sam_ambiguous(cur_orig):
                 bump(chk, "sam_drains_not_judged_values_closer_than_1e-12")
-            v = judge_property(strategy, cur_orig, d["obs"], exact and case["kind"] != "rep")
-            if v is None and d["re"] != d["obs"] and not (strategy == "sam" and sam_ambiguous(cur_orig)):
+            if strategy == "sam" and plain_x is not None:
+                bump(chk, "sam_drains_judged_exactly_on_bit_patterns")
+            v = judge_property(strategy, cur_orig, d["obs"], exact and case["kind"] != "rep", plain_x)
+            if v is None and d["re"] != d["obs"] and not (strategy == "sam" and plain_x is None and sam_ambiguous(cur_orig)):
                 why = same_distribution(d["obs"], d["re"], exact=strategy != "sam")
                 if why:
                     v = (f"re-aggregating the closed histogram into a fresh histogram of the same strategy changed it "
@@ -526,6 +597,7 @@ def judge_case(chk, table, case, res):
                              "model": exp[:4], "real": d["obs"][:4]}
             kept = d["obs"]
             cur_orig, cur_x = [], []
+            cur_plain = True
             di += 1
     return None, drift
 
@@ -624,6 +696,46 @@ def run_conc(chk, table, runs, threads=8, per=100_000):
     chk.extra["concurrent_add_value_calls"] = runs * threads * per
 
 
+def run_race(chk, table, rounds, threads, per_round=512, seed=None):
+    """many short-lived SharedHistograms, `threads` threads inside add_value of the same histogram at the same time,
+    closed right afterwards: count conserved, identical to the non-atomic histogram, every value within the bound"""
+    vals = sorted(x for b in range(0, 32 + 40 * 16) for s, f in table.reps[b] for x in [exact_f64(F(s, 1024))] if x is not None)
+    vals = sorted(set(vals))[::7]
+    seed = chk.seed if seed is None else seed
+    vp = os.path.join(chk.dir, f"race{threads}-values.ndjson")
+    op = os.path.join(chk.dir, f"race{threads}-out.ndjson")
+    vlib.write_ndjson(vp, [[f2b(x) for x in vals]])
+    vlib.run_bin("hist", ["race", "--values", vp, "--threads", threads, "--rounds", rounds, "--per-round", per_round,
+                          "--seed", seed * 10 + threads, "--out", op], timeout=3000)
+    o = vlib.read_ndjson(op)[0]
+    rp = {"kind": "race", "threads": threads, "rounds": rounds, "per_round": per_round, "seed": seed}
+    chk.evaluations += o["histograms"]
+    chk.nontrivial.add(("race", threads, rounds, seed))
+    bump(chk, "short_lived_shared_histograms", o["histograms"])
+    bump(chk, "short_lived_mismatches", o["mismatches"])
+    example = ""
+    for k in o["kept"]:
+        origs = [(F(b2f(b)), 1) for b in k["values"]]
+        v = judge_property("exp", origs, k["atomic"], True)
+        if v or k["mismatch"]:
+            example = (f"; e.g. round {k['round']} histogram {k['index']}: recorded {[b2f(b) for b in k['values']]} concurrently, "
+                       f"closed {k['atomic']}, non-atomic {k['seq']}" + (f": {v}" if v else ""))
+            break
+        exp = expect_model(table, "exp", [(b2f(b), 1) for b in k["values"]])
+        if exp != k["atomic"] and len(chk.drift) < 20:
+            chk.drift.append({"race": rp, "model": exp, "real": k["atomic"]})
+    if o["closed_total"] != o["recorded"]:
+        report(chk, f"{o['histograms']} short-lived SharedHistograms, {threads} threads recording one value each concurrently: "
+                    f"{o['recorded']} observations recorded, the closed histograms report {o['closed_total']} "
+                    f"({o['mismatches']} histograms differ from the non-atomic histogram){example}", dict(rp, observed=o),
+               key="C11:race-count")
+    elif o["mismatches"] or example:
+        report(chk, f"{o['mismatches']} of {o['histograms']} short-lived SharedHistograms differ from the non-atomic histogram "
+                    f"fed the same values{example}", dict(rp, observed=o), key="C11:race-vs-seq")
+    else:
+        chk.traces += o["histograms"]
+
+
 # --------------------------------------------------------------------------------------------
 OCCS = [1, 2, 3, 7, 1000, 1 << 20, (1 << 33) + 1]
 
@@ -695,8 +807,13 @@ def run(prop, tier):
     chk.assumptions = [
         "exponential strategies: reported value r = total/occurrences (exact rationals of the f64s) must satisfy "
         "|r - x| <= x/16 for x >= 1/32 and |r - x| <= 1/1024 for x < 1/32, compared exactly (no epsilon)",
-        "sort-and-merge: reported == recorded exactly for single occurrences of f64/u64 inputs; relative 1e-12 when the "
-        "observation is a product total = v * n or went through a unit conversion (f64 rounding of the representation)",
+        "sort-and-merge, plain single f64/f32/integer observations: judged exactly on the recorded f64 bit patterns (every "
+        "distinct recorded f64 once, strictly ascending, exact count; value exact for count 1, 1 ulp of total = v * n "
+        "otherwise), including adjacent floats below and above 1.0, values around 1e-17 and subnormals; a tolerance "
+        "(relative 1e-12, and no judgement when distinct inputs are closer than that) is kept ONLY where the recorded "
+        "value passes through total = v * n (Repeated, merged closed histograms) or a unit conversion (Duration, bytes)",
+        "concurrency: besides 8 x 1e5 adds into one histogram, ~150k short-lived SharedHistograms (2 and 3 threads, one "
+        "value each, far-apart values half of the time, closed immediately): a race, so detection is probabilistic",
         "the bound for values that are not bucket boundaries / neighbours / midpoints is argued from monotonicity inside a "
         "bucket, not enumerated; the property's domain is values below 2^43 - rows above are replayed but only feed MODEL-DRIFT",
         "occurrence counts up to 2^33+1 per record (1000 for sort-and-merge: it stores every occurrence)",
@@ -714,13 +831,23 @@ def run(prop, tier):
     for mod, cfg in ([] if vlib.SKIP_MC else mcs):      # self-test only: code-independent model checking skipped
         r = vlib.model_check(SPECD, mod, cfg, timeout=3600)
         chk.add_model(f"{mod}/{cfg}", r)
+    if not vlib.SKIP_MC:
+        r = vlib.model_check(SPECD, "HistogramAux", "MC_aux_atomic.cfg", timeout=600)
+        chk.add_model("HistogramAux/MC_aux_atomic.cfg", r)
+        r = vlib.model_check(SPECD, "HistogramAux", "MC_aux_racy.cfg", expect_ok=False, timeout=600)
+        if "CloseReportsAll" not in r.invariant_violated:
+            raise vlib.ToolError("negative model HistogramAux/MC_aux_racy.cfg no longer loses an observation")
+        chk.extra["negative_model_racy_summary_violates_CloseReportsAll"] = True
     rng = random.Random(chk.seed * 7919 + 11)
     cases, _ = build_cases(table, tier, rng)
     cases += run_behaviours(chk, table, tier, rng)
     cases += reagg_cases(table, tier, rng)
+    cases += near_cases(rng, tier)
     results = run_cases(chk, table, cases, "table")
     compare_variants(chk, cases, results)
     run_conc(chk, table, runs=1 if tier == "quick" else 50)
+    run_race(chk, table, rounds=200 if tier == "quick" else 2000, threads=2)
+    run_race(chk, table, rounds=100 if tier == "quick" else 1000, threads=3)
     chk.extra["buckets_covered"] = 976
     chk.extra["cases_by_source"] = {}
     for c in cases:
@@ -744,6 +871,11 @@ def replay(prop, path):
         cs = [rp["exp"], rp["atomic"]]
         res = run_cases(chk, table, cs, "replay")
         compare_variants(chk, cs, res)
+    elif rp["kind"] == "race":
+        for _ in range(5):
+            run_race(chk, table, rounds=rp["rounds"], threads=rp["threads"], per_round=rp["per_round"], seed=rp["seed"])
+            if chk.violations:
+                break
     elif rp["kind"] == "conc":
         chk.seed = rp["seed"]
         run_conc(chk, table, runs=rp["run"] + 1, threads=rp["threads"], per=rp["per"])
